@@ -19,7 +19,7 @@ _WALK = '''        pivot_atom = self.get_atom(pivot)
 '''
 MUTATIONS = [
     ("flat-rank-filter", "residue.py", _WALK, "        refdist = self.get_atom(pivot).refdistance\n        return [atom.name for atom in self.atoms if atom.refdistance > refdist]\n", "fire"),
-    ("walk-ge", "residue.py", "and bonded.refdistance > current.refdistance", "and bonded.refdistance >= current.refdistance", "fire"),
+    ("walk-ge-equivalent-on-this-topology", "residue.py", "and bonded.refdistance > current.refdistance", "and bonded.refdistance >= current.refdistance", "silent"),
     ("pivot-included", "residue.py", "            if atom in beyond and atom is not pivot_atom\n", "            if atom in beyond\n", "fire"),
     ("cb-in-backbone", "config.py", 'BACKBONE = ["N", "CA", "C", "O", "O2", "HA", "HN", "H", "tN"]', 'BACKBONE = ["N", "CA", "C", "O", "O2", "HA", "HN", "H", "tN", "CB"]', "silent"),
     ("backbone-reordered", "config.py", 'BACKBONE = ["N", "CA", "C", "O", "O2", "HA", "HN", "H", "tN"]', 'BACKBONE = ["CA", "N", "C", "O", "O2", "HA", "HN", "H", "tN"]', "silent"),
